@@ -24,7 +24,13 @@ for p in "${patches[@]}"; do
   git -C /repo worktree remove --force $wt; rm -rf $wt; git -C /repo worktree prune
   row="| $name | ${passed:-?} |"
   for c in C04 C08 C11 C15; do
-    o=$(timeout 1500 tools/with_patch.sh $p ./check $c quick 2>&1); code=$?
+    if [ $c = C15 ]; then
+      # probe + scheduler engine first; the Miri engine (minutes) only if they stay silent
+      o=$(VERIF_NO_MIRI=1 timeout 1500 tools/with_patch.sh $p ./check $c quick 2>&1); code=$?
+      if [ $code -eq 0 ]; then o=$(timeout 1500 tools/with_patch.sh $p ./check $c quick 2>&1); code=$?; fi
+    else
+      o=$(timeout 1500 tools/with_patch.sh $p ./check $c quick 2>&1); code=$?
+    fi
     case $code in 0) r="-";; 1) r="DET";; *) r="ERR";; esac
     row="$row $r |"
   done
